@@ -31,7 +31,7 @@ fi
 if [ $rc -ne 0 ]; then echo "ASAN: worker exited with $rc"; tail -20 target/asan/err.txt; exit 1; fi
 n_cases=$(wc -l < target/asan/cases.txt); n_impl=$(wc -l < target/asan/impl.txt)
 [ "$n_cases" = "$n_impl" ] || { echo "ASAN: $n_impl replies for $n_cases cases"; exit 1; }
-bad=$(paste -d'\n' target/asan/model.txt target/asan/impl.txt | awk 'NR%2==1{m=$0} NR%2==0{split($0,a," #oracle:"); split(a[2],c," "); split(a[1],w," "); same=(a[1]==m)||(w[1]=="normal"&&m=="normal"); if (!same || (a[2]!="" && c[1]!="slice-empty-detaches")) n++} END{print n+0}')
+bad=$(paste -d'\n' target/asan/model.txt target/asan/impl.txt | awk 'NR%2==1{m=$0} NR%2==0{split($0,a," #oracle:"); split(a[2],c," "); split(a[1],w," "); same=(a[1]==m)||(w[1]=="normal"&&m=="normal"); if (!same || a[2]!="") n++} END{print n+0}')
 [ "$bad" = "0" ] || { echo "ASAN: $bad cases differ from the Model or fail an oracle in the sanitizer build"; exit 1; }
 echo "ASAN: $n_cases histories / whole-section parses x 6 reader kinds executed under AddressSanitizer (leak detection on): no report, all replies equal the Model's"
 exit 0
